@@ -22,7 +22,9 @@ bytes. The bit layout is `Gen/MuxConst.lean` (regenerated from `header.rs` on ev
 
 What is **not** covered here and why (see also `level_text` of the registry entry): the tokio primitives are assumed to
 behave as written at the top of `Model/Mux.lean`; the end-to-end statement "bytes read on A = bytes written on B" is the
-composition of `sender_*` (B's wire output per stream is well-formed and carries exactly the written bytes),
+composition of `sender_*`, `writer_channel_fifo` and `acked_data_delivered_or_error` (B's wire output per stream is
+well-formed and carries exactly the bytes its `write_all` calls accepted — all of a call that returned `Ok`, the copied
+prefix of a cancelled one — also under back-pressure and with calls cancelled at their await),
 `dispatch_faithful` + `dispatch_isolation` (A's inbound loop hands every stream exactly the events addressed to it, in
 order) and `reader_sees_its_session` (a transient reader returns exactly the payload between its OPEN and its CLOSE); the
 composition step itself (the transport delivers B's frames to A unchanged — C13 — and session n matches session n) is
